@@ -2,6 +2,6 @@
    the Coq datatypes.  No Extract Constant of ours. *)
 Require Extraction.
 Require Import ExtrOcamlBasic.
-From HS Require Import Prelude Exec.
+From HS Require Import Prelude Exec Exec2.
 Extraction Language OCaml.
-Extraction "model.ml" step_top Z.mul Z.add Z.opp Z.div_eucl Z.eqb.
+Extraction "model.ml" step_top2 Z.mul Z.add Z.opp Z.div_eucl Z.eqb.
